@@ -9,6 +9,7 @@ C05 - inheritance is computed as Python computes it.  Decides consumers and the 
   R05.6 class-private names (__x) are not matched across classes (Python's name mangling)
   R05.7 an empty docstring ends the docstring search; sibling branches do not share the cycle-detection path
   R05.8 the class page drops the first inheritance chain only when it is the class itself
+  R05.10 class-body scoping: a name a class does not bind is looked up outside ALL enclosing classes; "overridden in" lists a subclass once
   R05.9 the documentation sources of a member are searched along the whole linearisation of ITS class (no exit, no hand-over to a base member's own search)
 Does not decide: that mro._merge is C3 (an algorithmic equality with type.__mro__).
 """
@@ -260,6 +261,7 @@ def run(repo: Repo, chk: Check, thorough: bool = False) -> None:
                'it from the inherited members, although at run time `_Base__check` and `_Derived__check` are unrelated attributes', f.loc)
     chk.require('R05.6', 4)
 
+    check_r05_10(repo, chk)
     # ------------------------------------------------------------------ R05.9
     # attribute lookup for a member of class C goes along the linearisation of C, whatever class an intermediate definition sits in.  docsources()
     # therefore consults every class of `self.parent.mro()` itself: a loop that leaves at the first hit, or hands the rest of the search to the base
@@ -346,3 +348,39 @@ def run(repo: Repo, chk: Check, thorough: bool = False) -> None:
     if not dels:
         chk.note('R05.8: ClassPage.baseTables no longer drops a chain')
 
+
+
+def check_r05_10(repo: Repo, chk: Check) -> None:
+    # (a) the scope of a class body does not extend into nested classes: `class Server: class Handler: ...; class Protocols: class Http(Handler)` refers to the
+    # module-level Handler.  The two lookups a class offers for a name it does not bind itself have to agree: isNameDefined() continues in the MODULE;
+    # _localNameToFullName() must not continue in the enclosing class
+    lf = repo.func(f'{M}.Class._localNameToFullName')
+    dels = [c for c in calls_in(lf) if call_name(c) == '_localNameToFullName' and isinstance(c.func, ast.Attribute)]
+    if not dels:
+        raise AnalysisError('R05.10: Class._localNameToFullName no longer delegates to an outer scope')
+    for c in dels:
+        recv = c.func.value
+        direct_parent = isinstance(recv, ast.Attribute) and recv.attr == 'parent' and dotted(recv.value) == 'self'
+        skips = isinstance(recv, ast.Name) and any(isinstance(w, ast.While) and any(isinstance(x, ast.Call) and call_name(x) == 'isinstance' and 'Class' in norm(x.args[1])
+                                                                                      for x in ast.walk(w.test)) for w in lf.walk()) or \
+            (isinstance(recv, ast.Attribute) and recv.attr in ('module', 'parentMod'))
+        ok = skips and not direct_parent
+        chk.ob('R05.10', f'{M}.Class._localNameToFullName :: names not bound in the class are looked up outside every enclosing class', ok,
+               f'continues in `{norm(recv)}`' if ok else
+               f'continues in `{norm(recv)}`, the enclosing class: `class Http(Handler)` inside `Server.Protocols` takes `Server.Handler` as its base although Python '
+               'uses the module-level `Handler` - wrong linearisation, wrong inherited docstring', repo.loc(lf.mod, c))
+    # (b) the subclass graph is a DAG: a recursive walk over `.subclasses` reaches a class once per path - "overridden in shapes.Badge, shapes.Badge"
+    os_ = repo.func('pydoctor.templatewriter.util.overriding_subclasses')
+    rec = [c for c in calls_in(os_) if call_name(c) == os_.name]
+    if not rec:
+        raise AnalysisError('R05.10: overriding_subclasses no longer recurses')
+    seen_sets = {t.id for a in os_.walk() if isinstance(a, (ast.Assign, ast.AnnAssign)) and a.value is not None and
+                 ((isinstance(a.value, ast.Call) and call_name(a.value) in ('set', 'dict')) or isinstance(a.value, (ast.Set, ast.Dict)))
+                 for t in (a.targets if isinstance(a, ast.Assign) else [a.target]) if isinstance(t, ast.Name)}
+    dedup = any(isinstance(n, ast.Compare) and isinstance(n.ops[0], (ast.NotIn, ast.In)) and isinstance(n.comparators[0], ast.Name) and n.comparators[0].id in seen_sets
+                for n in os_.walk()) or any(isinstance(c, ast.Call) and call_name(c) == 'fromkeys' for c in calls_in(os_))
+    chk.ob('R05.10', 'templatewriter.util.overriding_subclasses :: a subclass reached along two paths is listed once', dedup,
+           'results are de-duplicated' if dedup else
+           'the walk treats the subclass graph as a tree: in a diamond (`Badge(Rounded, Filled)`, both deriving from `Shape`) the page of Shape says '
+           '"overridden in shapes.Badge, shapes.Badge"', os_.loc)
+    chk.require('R05.10', 2)
